@@ -314,7 +314,21 @@ fn gen_call(rng: &mut Rng) -> BCall {
             Some(*rng.pick(&[0u32, 1, 10, 50, 100, 500, 1000, 8000, 65535]))
         }),
         18 | 19 => BCall::Iname(if rng.chance(1, 4) { None } else { Some(rand_name(rng, 15)) }),
-        20 | 21 => BCall::Admin(if rng.chance(1, 4) { None } else { Some(rand_name(rng, 15)) }),
+        20 | 21 => BCall::Admin(if rng.chance(1, 4) {
+            None
+        } else if rng.chance(1, 4) {
+            // passwords are sent verbatim: any UTF-8, at most 15 bytes
+            let mut s = String::new();
+            for _ in 0..rng.usize(1, 8) {
+                let c = *rng.pick(&['a', 'Z', '7', 'ä', 'ö', 'é', 'я', 'Ж', '€', '^', 'ß']);
+                if s.len() + c.len_utf8() <= 15 {
+                    s.push(c);
+                }
+            }
+            Some(s)
+        } else {
+            Some(rand_name(rng, 15))
+        }),
         22 => BCall::Reqi(match rng.below(3) {
             0 => 0,
             1 => 1,
@@ -329,8 +343,35 @@ fn gen_call(rng: &mut Rng) -> BCall {
     }
 }
 
+/// The IS_ISI frame laid out by hand from the InSim specification (Size, Type = 1, ReqI, Zero,
+/// UDPPort u16, Flags u16, InSimVer, Prefix, Interval u16, Admin[16], IName[16]; little endian),
+/// independent of the library's encoder. Admin passwords travel verbatim (UTF-8 bytes).
 fn expected_frame(mode: SizeMode, m: &ModelIsi) -> Result<Vec<u8>, String> {
-    ref_encode(mode, &Packet::Isi(to_lib_isi(m)))
+    if m.admin.len() > 15 || m.iname.len() > 15 || !m.iname.is_ascii() || m.interval_ms > 65_535 {
+        return Err("outside the modelled domain".into());
+    }
+    let mut f = vec![mode.size_byte(44), 1, m.reqi, 0];
+    f.extend_from_slice(&m.udpport.to_le_bytes());
+    f.extend_from_slice(&m.flags.to_le_bytes());
+    f.push(m.version);
+    f.push(m.prefix);
+    f.extend_from_slice(&(m.interval_ms as u16).to_le_bytes());
+    let mut a = m.admin.as_bytes().to_vec();
+    a.resize(16, 0);
+    f.extend_from_slice(&a);
+    let mut n = m.iname.as_bytes().to_vec();
+    n.resize(16, 0);
+    f.extend_from_slice(&n);
+    // cross-check against the library's encoder: a disagreement on pure ASCII content would be
+    // a defect of this model (or a codec defect, which is C01/C02's business): not judged here
+    if m.admin.is_ascii() {
+        if let Ok(r) = ref_encode(mode, &Packet::Isi(to_lib_isi(m))) {
+            if r != f {
+                return Err("model and library encoder disagree on ASCII content".into());
+            }
+        }
+    }
+    Ok(f)
 }
 
 impl Prop for C18 {
@@ -596,8 +637,8 @@ impl Prop for C18 {
     fn assumptions(&self) -> Vec<String> {
         vec![
             "documented defaults: flags 0, prefix NUL, interval 0, admin empty, iname \"insim.rs\", reqi 0, version 9, udpport 0 unless UDP with a local address".into(),
-            "UDP without a local address: udpport 0 from builder.isi(); connect_* may send 0 or the port it actually bound".into(),
-            "expected handshake bytes = Codec::encode(Isi built from the model) (reference call); names / passwords are <= 15 ASCII characters and intervals <= 65535 ms so that text and duration conversion (C11/C15, not claimed) cannot influence the verdict".into(),
+            "UDP without a local address: udpport 0 from builder.isi(), and connect_* must send that same ISI".into(),
+            "expected handshake bytes are laid out by hand from the InSim specification of IS_ISI, independently of the library's encoder; program names are <= 15 ASCII characters, passwords <= 15 bytes of UTF-8 sent verbatim (as the shipped field attribute says), intervals <= 65535 ms, so that codepage and duration conversion (C10/C11/C15, not claimed) cannot influence the verdict; if model and library encoder disagree on pure-ASCII content the case is not judged".into(),
             "relay connect paths (hard-wired to isrelay.lfs.net:47474) are unreachable offline and not exercised".into(),
             "UDP 'only frame': no second datagram within 30 ms of the first (can miss, cannot false-alarm)".into(),
         ]
@@ -762,13 +803,8 @@ fn connect_run(sc: &BuilderSc, m: &ModelB, want: &ModelIsi, imp: Imp) -> Connect
         Err(e) => return fail("connect.nothing_sent", format!("{} no datagram arrived: {}", tag, e)),
     };
     let got = buf[..n].to_vec();
-    let mut candidates = vec![want.clone()];
-    if m.udp_local.is_none() || m.udp_local == Some(0) {
-        // the port actually bound is an equally faithful answer when none was configured
-        let mut w = want.clone();
-        w.udpport = from.port();
-        candidates.push(w);
-    }
+    let _ = from;
+    let candidates = vec![want.clone()];
     let mut ok = false;
     let mut exp_hex = String::new();
     for c in &candidates {
